@@ -297,8 +297,58 @@ def one_history(ctx, index, rng: random.Random):
                                                                                                "statistics": [float(getattr(h.statistics, f)) for f in ("sum", "sum2", "min", "max", "weight")]})
 
 
+def collection_case(ctx, index, rng: random.Random):
+    """Collections: create(name, values) fills a member from raw values, sum() adds the members (an empty collection sums to an
+    empty histogram: weight 0, then usable as an accumulator)."""
+    import physt
+    from physt.histogram_collection import HistogramCollection
+
+    rec = ctx.rec
+    e = gen.edges(rng, rng.randint(1, 6))
+    lo, hi = e[0], e[-1]
+    binning = physt.h1([lo], np.array(e)).binning.copy()
+    log = []
+    try:
+        with warnings.catch_warnings():
+            warnings.simplefilter("ignore")
+            col = HistogramCollection(binning=binning)
+            k = rng.choice([0, 0, 1, 2, 3])
+            lv, lw = [], []
+            for i in range(k):
+                v = [rng.uniform(lo, hi) for _ in range(rng.randint(0, 8))]
+                col.create(f"m{i}", np.asarray(v, dtype=float))
+                with attach.quiet():
+                    check_stats(rec, col.histograms[-1], v, [1.0] * len(v), op="collection.create", detail={"member": i})
+                lv += v
+                lw += [1.0] * len(v)
+            log.append(f"collection of {k}")
+            tot = col.sum()
+            with attach.quiet():
+                check_stats(rec, tot, lv, lw, op=f"collection.sum({k} members)", detail={"log": log})
+                if k == 0 and not (float(tot.statistics.weight) == 0 and math.isnan(float(tot.statistics.mean()))):
+                    rec.fail(monitor="C14.ledger", op="collection.sum(0 members)", symptom="the empty sum does not report weight 0 and NaN mean", diff=["statistics"],
+                             detail={"weight": float(tot.statistics.weight)})
+            # the sum goes on as an accumulator
+            v = [rng.uniform(lo, hi) for _ in range(rng.randint(1, 6))]
+            if rng.random() < 0.5:
+                tot.fill_n(np.asarray(v))
+            else:
+                for x in v:
+                    tot.fill(x)
+            lv += v
+            lw += [1.0] * len(v)
+            with attach.quiet():
+                check_stats(rec, tot, lv, lw, op="fill after collection.sum", detail={"log": log})
+    except Exception as ex:
+        rec.mon("C14.ledger")
+        rec.fail(monitor="C14.ledger", op="collection", symptom=f"collection history raised {type(ex).__name__}", diff=["raised"], detail={"error": str(ex)[:160]})
+        return
+    rec.case(["collection", k, gen.hexlist(lv)], len(lv) >= 3, cls=f"collection/{k}")
+
+
 def run(ctx):
     attach_monitors()
+    ctx.run_cases(ctx.scale(60, 400), collection_case, salt="collection")
     ctx.run_cases(ctx.scale(500, 4000), one_history, salt="ledger")
     from . import C05
 
